@@ -101,4 +101,4 @@ def check(case, ctx):
 
 
 def subchecks():
-    return [HypSub("local_optimum", cases, check, 12000, 100000)]
+    return [HypSub("local_optimum", cases, check, 24000, 200000)]
